@@ -71,6 +71,8 @@ def path_to_dict(
     if not data:
         return None, None
 
+    data = dict(data)  # the resolver caches and returns the same dict: it must not be updated in place
+
     # path mapping
     for key, value in data.items():
         # debug('{}, {}, {}'.format(key, value, template.name))
